@@ -19,7 +19,7 @@ from fractions import Fraction as Fr
 from lib.rat import R, F, close, dev
 
 ID = "C01"
-QUICK_N = 1500
+QUICK_N = 1000
 THOROUGH_N = 30000
 QUICK_BUDGET_S = 80
 THOROUGH_BUDGET_S = 900
